@@ -389,3 +389,9 @@ T('C10', 'mul-unsanitised-alone', [_NOSAN])
 K('C15', 'size-numpy-prod', [(DOM, "            return reduce(lambda x,y: x*y, self.shape, 1)", "            return int(np.prod(self.shape))"), (DOM, "from functools import reduce", "from functools import reduce\nimport numpy as np")], 'exact-size')
 K('C15', 'datavector-bins-from-shape', [(DS, "        ans = np.histogramdd(self.df.values, bins, weights=self.weights)[0]", "        ans = np.histogramdd(self.df.values, self.domain.shape, weights=self.weights)[0]")], 'histogram')
 T('C01', 'bp-message-by-projection', [(GM, "            messages[(i,j)] = tau.logsumexp(sep)", "            messages[(i,j)] = tau.project(self.sep_axes[(i,j)], agg='logsumexp')")])
+K('C06', 'aim-total-under-misbound-flag', [(AIM, "        zeros = self.structural_zeros\n", "        zeros = self.structural_zeros\n        total = data.records if self.bounded else None\n"),
+                                           (AIM, "        model = engine.estimate(measurements)\n\n        t = 0", "        model = engine.estimate(measurements, total)\n\n        t = 0")], 'public-sink')
+K('C06', 'mst-transform-drops-attribute', [(MST, "    newdom = Domain.fromdict(newdom)\n    return Dataset(df, newdom)\n\ndef reverse_data", "    newdom = { col : n for col, n in newdom.items() if supports[col].any() }\n    newdom = Domain.fromdict(newdom)\n    return Dataset(df, newdom)\n\ndef reverse_data")], 'domain-restored')
+T('C06', 'aim-total-under-genuine-flag', [(AIM, "        super(AIM, self).__init__(epsilon, delta, prng)", "        super(AIM, self).__init__(epsilon, delta, False, prng)"),
+                                          (AIM, "        zeros = self.structural_zeros\n", "        zeros = self.structural_zeros\n        total = data.records if self.bounded else None\n"),
+                                          (AIM, "        model = engine.estimate(measurements)\n\n        t = 0", "        model = engine.estimate(measurements, total)\n\n        t = 0")])
